@@ -143,7 +143,7 @@ fn recipe_for(prop: &str) -> Recipe {
         "C07" => Recipe { setup: MOVE_SETUP, focus: &[(Kind::Erase, 4), (Kind::WideEdit, 1)], ..base },
         "C08" => Recipe { setup: MOVE_SETUP, focus: &[(Kind::Shift, 4), (Kind::WideEdit, 1)], ..base },
         "C09" => Recipe { setup: &[(Kind::Sgr, 5), (Kind::Text, 2), (Kind::SaveRestore, 1)], focus: &[(Kind::Sgr, 1)], ..base },
-        "C10" => Recipe { setup: &[(Kind::Mode, 5), (Kind::Text, 1)], focus: &[(Kind::Mode, 1)], ..base },
+        "C10" => Recipe { setup: &[(Kind::Mode, 5), (Kind::Text, 3), (Kind::Alt, 1)], focus: &[(Kind::Mode, 1)], api_scrollback: true, ..base },
         "C11" => Recipe {
             setup: ALL_KINDS,
             focus: &[(Kind::Alt, 6), (Kind::SaveRestore, 6), (Kind::Text, 2), (Kind::TextMargin, 2), (Kind::WideEdit, 2), (Kind::Erase, 1), (Kind::Move, 2), (Kind::Sgr, 1), (Kind::Region, 1), (Kind::Shift, 2)],
@@ -306,6 +306,7 @@ fn queries(ctx: &mut Ctx) {
             ctx.sess.checked("X contents 0", "X");
         }
         "C10" => {
+            ctx.sess.checked("F state", "F");
             ctx.sess.checked("F input", "F");
             ctx.sess.checked("X input 0", "X");
             ctx.sess.checked("X state 1", "X");
@@ -389,8 +390,12 @@ fn run_oracle(ctx: &mut Ctx, dirty: &mut Option<Vec<u8>>, chain: &mut Option<(vt
         "C10" => {
             let f = vtharness::catch(|| oracle::c10_formatted(&s)).unwrap_or(None);
             ctx.record(f);
+            let f = vtharness::catch(|| oracle::c10_state(&s, None)).unwrap_or(None);
+            ctx.record(f);
             for k in 0..2 {
                 if let Some(Some(p)) = ctx.sess.runner.slots.get(k).cloned() {
+                    let f = vtharness::catch(|| oracle::c10_state(&s, Some(&p))).unwrap_or(None);
+                    ctx.record(f);
                     let f = vtharness::catch(|| oracle::c10_diff(&p, &s)).unwrap_or(None);
                     ctx.record(f);
                     let f = vtharness::catch(|| oracle::c10_diff(&s, &p)).unwrap_or(None);
@@ -678,9 +683,26 @@ fn run_generic(ctx: &mut Ctx, n_cases: u64) {
                 ctx.sess.process_checked(&bytes, "Placement");
             }
             let k = g.pick_kind(rec.focus);
-            let bytes = g.chunk(k);
+            let mut bytes = g.chunk(k);
             let tag = kind_tag(k);
-            if bytes.len() >= 2 && g.rng.chance(1, 4) {
+            let mut ris_plus_more = false;
+            if ctx.prop == "C17" && g.rng.chance(1, 2) {
+                // "every later input behaves as on a fresh parser": more input follows the reset in the
+                // SAME process() call and is cut inside a sequence that began after it
+                let k2 = g.pick_kind(ALL_KINDS);
+                let more = g.chunk(k2);
+                if more.len() >= 2 {
+                    let cut = bytes.len() + g.rng.range(1, more.len() as u64 - 1) as usize;
+                    bytes.extend(more);
+                    ctx.sess.process_checked(&bytes[..cut], &tag);
+                    ctx.sess.process_checked(&bytes[cut..], &tag);
+                    bytes.clear();
+                    ris_plus_more = true;
+                }
+            }
+            if bytes.is_empty() {
+                // already processed above
+            } else if bytes.len() >= 2 && g.rng.chance(1, 4) {
                 // the same bytes in two or more process() calls
                 if g.rng.chance(1, 3) {
                     for b in &bytes {
@@ -699,7 +721,9 @@ fn run_generic(ctx: &mut Ctx, n_cases: u64) {
             if !rec.sync_each {
                 api_noise(ctx, &rec, false);
             }
-            if ctx.prop == "C17" && !ctx.sess.dead {
+            // (the fresh-parser oracle applies to the state right after the reset: not when more
+            // input followed it in the same step — that case is decided by the step correspondence)
+            if ctx.prop == "C17" && !ctx.sess.dead && !ris_plus_more {
                 let size = ctx.sess.screen().map(|s| s.size());
                 if let (Some(p), Some((r, c))) = (ctx.sess.runner.parser.as_ref(), size) {
                     let f = oracle::c17(p, r, c, sb as usize);
